@@ -439,6 +439,7 @@ void Script::exec(Plan &p){
         if (!ex.empty() && cls.compare(0, 9, "uncaught-") == 0){
             // the library call itself throws: the tool turns a documented exception into std::terminate; counted, not a C16 violation
             c.count("tool_terminate_on_api_exception:" + p.name);
+            c.count(p.valid ? "both_reject" : "both_reject_misuse_step");
             rejected++;
             // the grid file must be untouched
             std::string now;
@@ -458,6 +459,7 @@ void Script::exec(Plan &p){
         c.count("tool_rejected:" + p.name);
         std::string what, ex;
         { TasmanianSparseGrid copy; if (has_grid && !p.creates) copy.copyGrid(G); Out o; ex = run_api(copy, o, false, what); }
+        if (!ex.empty()) c.count(p.valid ? "both_reject" : "both_reject_misuse_step");
         if (ex.empty()){
             std::string ec = error_class(t); // the tool's own message is the class; the command only when there is no message
             viol("outcome:tool-rejects-api-accepts:" + ((ec == "no-error-message") ? ec + ":" + p.name : ec), J().i("step", step).i("exit", t.code).str("stderr", t.err.substr(0, 600)).str("stdout", t.out.substr(0, 200)).b("generator_says_valid", p.valid).str("command", p.name));
@@ -723,6 +725,8 @@ struct Gen{
     int gen_counter = 0;   // value generation
     int vmode = 1;         // 1 smooth, 0 hash
     bool conformal_set = false;
+    int force_out = -1000;  // misuse steps: an output index outside the range
+    bool drop_row = false;  // misuse steps: one row too few in the values / coefficients file
     explicit Gen(Script &sc, int mp) : s(sc), rng(sc.rng), c(sc.c), max_points(mp){}
 
     TasmanianSparseGrid const& G() const{ return s.G; }
@@ -859,6 +863,7 @@ struct Gen{
         int d = G().getNumDimensions(), m = G().getNumOutputs();
         std::vector<double> pts = (G().getNumNeeded() > 0) ? G().getNeededPoints() : G().getLoadedPoints();
         gen_counter++;
+        if (drop_row) pts.resize(pts.size() - (size_t) d);
         std::vector<double> v = model_vals(pts, d, m, gen_counter, vmode);
         Plan p; p.name = "loadvalues"; p.cmd = s.sp("-loadvalues"); p.mutates = true;
         p.opts = {s.sp("-valsfile"), s.put(Mat((long)(pts.size() / (size_t) d), m, v), "vals")};
@@ -868,13 +873,14 @@ struct Gen{
     Plan setcoefficients(){
         int n = G().getNumPoints(), m = G().getNumOutputs();
         bool four = G().isFourier();
-        Mat cm(n, (long) m * (four ? 2 : 1));
+        Mat cm(drop_row ? n - 1 : n, (long) m * (four ? 2 : 1));
         for(auto &x : cm.v) x = rng.uni(-1.0, 1.0);
         Plan p; p.name = "setcoefficients"; p.cmd = s.sp("-setcoefficients"); p.mutates = true;
         p.opts = {s.sp("-valsfile"), s.put(cm, "coeff")};
-        p.api = [cm, n, m, four](TasmanianSparseGrid &g, Out&, bool){
+        p.api = [cm, m, four](TasmanianSparseGrid &g, Out&, bool){
             if (!four){ g.setHierarchicalCoefficients(cm.v); return; }
             // the command line takes interleaved complex numbers (InterfaceCLI.md, tsgLoadHCoefficients.m), the API takes the real block followed by the imaginary block
+            int n = (int) cm.rows;
             std::vector<double> cc((size_t) 2 * (size_t) n * (size_t) m);
             for(int i=0; i<n; i++) for(int k=0; k<m; k++){
                 cc[(size_t) i * (size_t) m + (size_t) k] = cm.v[(size_t) i * (size_t)(2 * m) + (size_t)(2 * k)];
@@ -902,6 +908,7 @@ struct Gen{
             TypeDepth t = rng.pick(aniso_types);
             int ming = rng.range(1, 8); bool pass_ming = rng.coin(0.7); if (!pass_ming) ming = 1; // "defaults to 1"
             int out = G().isGlobal() ? rng.range(0, m - 1) : rng.range(-1, m - 1);
+            if (force_out != -1000) out = force_out;
             bool pass_out = G().isGlobal() || out != -1 || rng.coin(); // "for sequence grids defaults to -1"
             p.opts = {s.sp("-type"), tname(t)};
             if (pass_ming){ p.opts.push_back(s.sp("-mingrowth")); p.opts.push_back(std::to_string(ming)); }
@@ -1076,6 +1083,17 @@ struct Gen{
             add(U ? 1.5 : 0.8, [&]{ return getconstructpnts(); });
             if (U && !s.candidates.empty()) add(3.0, [&]{ return loadconstructed(); });
             if (U) add(0.6, [&]{ return cancelrefine(); });
+        }
+        // steps that the API documents as errors: the tool must not accept them (outcome agreement in the rejecting direction)
+        auto misuse = [&](Plan q, const char *what){ q.valid = false; q.name += std::string("-misuse-") + what; return q; };
+        if (np > 0 && !U){
+            if (m > 0 && L == 0) add(0.25, [&]{ return misuse(refine(local ? 1 : (aniso_family() && nested() ? 0 : 2)), "no-loaded-values"); });
+            if (m > 0 && L > 0 && local) add(0.15, [&]{ return misuse(getanisotropy(), "local-grid"); });
+            if (local) add(0.12, [&]{ return misuse(update(), "local-grid"); });
+            if (!(g.isGlobal() || g.isSequence())) add(0.12, [&]{ return misuse(getpoly(), "not-global"); });
+            if (m > 0 && L > 0 && aniso_family() && nested()) add(0.15, [&]{ force_out = m + rng.range(0, 2); Plan q = refine(0); force_out = -1000; return misuse(q, "output-out-of-range"); });
+            if (m > 0 && N > 1) add(0.2, [&]{ drop_row = true; Plan q = loadvalues(); drop_row = false; return misuse(q, "too-few-rows"); });
+            if (m > 0 && L > 1 && N == 0) add(0.12, [&]{ drop_row = true; Plan q = setcoefficients(); drop_row = false; return misuse(q, "too-few-rows"); });
         }
         double tot = 0; for(auto &x : w) tot += x.first;
         double u = rng.uni() * tot;
